@@ -286,3 +286,15 @@ OBLIGATIONS = [
     Ob("twin_align", sym_twin, lambda tier: [dict(deps=[["a", "ka", [1, 1]], ["b", "kb", [1]]])], None, setup=_setup,
        expect_cex=True),
 ]
+
+
+MUTANTS = [
+    dict(name="original F-C08: trailing zero-duration chunk raises", file="strax/plugins/plugin.py",
+         old="                    if buffer.end != _end or len(buffer) != _n:", new="                    if True:"),
+    dict(name="other inputs fetched only while strictly shorter by one", file="strax/plugins/plugin.py",
+         old="                                or self.input_buffer[d].end < this_chunk_end\n", new="                                or self.input_buffer[d].end < this_chunk_end - 1\n"),
+    dict(name="leftover rows at the end not reported", file="strax/plugins/plugin.py",
+         old="                    if buffer is not None and len(buffer):", new="                    if False:"),
+    dict(name="inconsistent input ranges accepted", file="strax/plugins/plugin.py",
+         old="            elif len(set(tranges.values())) != 1:", new="            elif False:"),
+]
